@@ -1,0 +1,45 @@
+//go:build verif
+
+/*
+Copyright SecureKey Technologies Inc. All Rights Reserved.
+
+SPDX-License-Identifier: Apache-2.0
+*/
+
+// Package jwsx re-exports the internal JWS functions for the verification harness, which lives in another
+// module and cannot import internal packages.
+package jwsx
+
+import (
+	internal "github.com/trustbloc/sidetree-core-go/pkg/internal/jws"
+	"github.com/trustbloc/sidetree-core-go/pkg/internal/signutil"
+	"github.com/trustbloc/sidetree-core-go/pkg/jws"
+)
+
+// JSONWebSignature is the internal JWS type.
+type JSONWebSignature = internal.JSONWebSignature
+
+// VerifyJWS is internal/jws.VerifyJWS.
+func VerifyJWS(compact string, jwk *jws.JWK) (*JSONWebSignature, error) {
+	return internal.VerifyJWS(compact, jwk)
+}
+
+// ParseJWS is internal/jws.ParseJWS.
+func ParseJWS(compact string) (*JSONWebSignature, error) {
+	return internal.ParseJWS(compact)
+}
+
+// VerifySignature is internal/jws.VerifySignature.
+func VerifySignature(jwk *jws.JWK, signature, msg []byte) error {
+	return internal.VerifySignature(jwk, signature, msg)
+}
+
+// SignModel is internal/signutil.SignModel.
+func SignModel(model interface{}, signer signutil.Signer) (string, error) {
+	return signutil.SignModel(model, signer)
+}
+
+// SignPayload is internal/signutil.SignPayload.
+func SignPayload(payload []byte, signer signutil.Signer) (string, error) {
+	return signutil.SignPayload(payload, signer)
+}
